@@ -46,6 +46,8 @@ class Gen:
                 self.absent(o); outs.append(o)
             if r.random() < 0.12:       # a command whose only output is virtual: its value is the same on every run
                 outs = ["<v%d>" % i]; self.nodes[outs[0]] = node("virtual", "")
+            elif r.random() < 0.15:     # a virtual output next to the file outputs, in either position
+                v = "<w%d>" % i; self.nodes[v] = node("virtual", ""); outs.insert(r.choice([0, len(outs)]), v)
             reads = []
             if self.headers and r.random() < (0.8 if f == "C11" else 0.35):
                 reads = r.sample(self.headers, r.randint(1, min(2, len(self.headers))))
@@ -59,6 +61,7 @@ class Gen:
                     spell=dict(args="scalar" if r.random() < 0.3 else "list", deps="list" if r.random() < 0.3 else "scalar"),
                     signature="S0" if (f == "C09" and r.random() < 0.3) else "",
                     extra=["EK", "ev"] if (f == "C09" and r.random() < 0.3) else [])
+            c["_relreads"] = r.random() < 0.4       # the dependency file spells the paths relative to the working directory
             c["_failhow"] = r.choice(["exit 1", "exit 1", "exit 2", "exit 255", "kill -TERM $$", "kill -USR1 $$", "kill -ABRT $$", "kill -HUP $$"])
             if c["_depstyle"] == "makefile" and any(":" in x for x in reads): c["_depstyle"] = c["_depfmt"] = "depinfo"   # makefile syntax cannot express ':'
             cmds[name] = c; order.append(name); outs_avail += outs
@@ -240,8 +243,14 @@ class Gen:
                     a = r.choice([c for c in cand if live.get(c, "file") == "file" and all(live.get(os.path.dirname(c), "dir") == "dir" for _ in [0])])
                     steps.append(("write", a, r.choice("01"))); self.fs0.setdefault(a, dict(t="none", c="")); live[a] = "file"
             elif op == "stale":
-                desc = copy.deepcopy(desc); desc["cmds"]["rm"] = self.stale_cmd(); steps.append(("frontend", desc, db, serial))
-                steps.append(("build", "s" if r.random() < 0.7 else "t"))
+                if r.random() < 0.3:
+                    # put a file back where an earlier run may have removed one and build again with the SAME frontend:
+                    # the path was not listed by the previous successful run any more, so it must stay
+                    p = r.choice([c for c in self.stale_cand if c != "st/sub"]); steps.append(("write", p, "back"))
+                    steps.append(("build", "s"))
+                else:
+                    desc = copy.deepcopy(desc); desc["cmds"]["rm"] = self.stale_cmd(); steps.append(("frontend", desc, db, serial))
+                    steps.append(("build", "s" if r.random() < 0.7 else "t"))
             if steps[-1][0] not in ("build", "buildnode") and r.random() < 0.55:
                 steps.append(("build", r.choice(list(desc["targets"]))))
         steps.append(("build", "t"))
